@@ -234,6 +234,11 @@ func (c *pChunker) start(ctx context.Context) {
 		// If the next worker has stopped and has no more chunks in its bucket,
 		// we want to skip that and try to sync with the one after
 		if c.next != nil && !c.next.active() && len(c.next.results) == 0 {
+			// The skipped worker may have stopped at the end of the stream. Its chunks
+			// are accounted for here, so the end of the stream is now announced by the
+			// worker this one synchronises with (or by this one); the skipped worker
+			// must not make IndexFromFile stop before it gets to those.
+			c.next.eof = false
 			c.next = c.next.next
 		}
 	}
